@@ -1008,6 +1008,60 @@ example : ∃ eff σC' σIL', compileProgH Cfg.asCode fsxtn = .ok eff ∧ ExecCs
     · rw [← hrel.new]; exact Option.some.inj hnew
   · cases hnew
 
+/-! #### an explicit / alias register as the target of a plain `=` (`lhsCarveSem`) -/
+
+/-- `{ P0 = ((RsV == RtV) ? 0xff : 0x00); ; }`: part 0 of the shipped `J4_cmpeq_tp0_jump_t` (the shape of every compound
+    compare-and-jump: 86 parts of the corpus).  `P0` is assigned, so the code would READ it through the `.new` value
+    (`assignedRegsReadNew`) — but the target of `=` is not read. -/
+def j4_cmpeq_tp0 : List CStmt :=
+  [.assign (.reg "P0" .explicit ⟨true, 8⟩) "=" (.tern (.cmp "==" (.reg "RsV" .src ⟨true, 32⟩) (.reg "RtV" .src ⟨true, 32⟩))
+     (.lit 255 true "") (.lit 0 true "")),
+   .skip ";"]
+theorem j4_cmpeq_tp0_certified : certifiedSem j4_cmpeq_tp0 = true := by decide +kernel
+/-- as a VALUE the assigned `P0` stays outside; as the target of `=` it is inside, as the target of `|=` it is not -/
+example : CarveESem ["P0_op"] (.reg "P0" .explicit ⟨true, 8⟩) = false ∧
+    lhsCarveSem ["P0_op"] "=" (.reg "P0" .explicit ⟨true, 8⟩) = true ∧
+    lhsCarveSem ["P0_op"] "|=" (.reg "P0" .explicit ⟨true, 8⟩) = false ∧
+    lhsCarveSem ["P0_op"] "=" (.reg "P0" .explicit ⟨true, 32⟩) = false := by decide +kernel
+/-- the two lowerings do compile the target differently (the read of it), and still emit effects with one meaning -/
+def readsNew : Except String CE → Option Bool
+  | .ok ce => (match ce.il with | .readReg _ b => some b | _ => none)
+  | .error _ => none
+example : readsNew (compileExpr ⟨["P0_op"], Cfg.asCode⟩ (.reg "P0" .explicit ⟨true, 8⟩)) = some true ∧
+    readsNew (compileExpr ⟨["P0_op"], Cfg.fixed⟩ (.reg "P0" .explicit ⟨true, 8⟩)) = some false := by decide +kernel
+/-- `{ P0 = RsV; RdV = P0; }` (the assigned register is READ: the listed finding `assigned-explicit-register-read-as-new`)
+    and `{ P0 |= RsV; }` are NOT certified -/
+example : certifiedSem [.assign (.reg "P0" .explicit ⟨true, 8⟩) "=" (.reg "RsV" .src ⟨true, 32⟩),
+    .assign (.reg "RdV" .dst ⟨true, 32⟩) "=" (.reg "P0" .explicit ⟨true, 8⟩)] = false ∧
+    certifiedSem [.assign (.reg "P0" .explicit ⟨true, 8⟩) "|=" (.reg "RsV" .src ⟨true, 32⟩)] = false := by decide +kernel
+
+/-- the shipped `J2_loop1i`: `{ riV; riV = (riV & (~(4 - 1))); HEX_REG_ALIAS_SA1 = (HEX_REG_ALIAS_PC + riV);
+    HEX_REG_ALIAS_LC1 = UiV; }` (alias registers as targets; the bare `riV;` in front of the assignment to `riV`) -/
+def j2_loop1i : List CStmt :=
+  [.exprstmt (.imm "r" true),
+   .assign (.imm "r" true) "=" (.bin "&" (.imm "r" true) (.un "~" (.bin "-" (.lit 4 false "") (.lit 1 false "")))),
+   .assign (.reg "HEX_REG_ALIAS_SA1" .alias ⟨false, 32⟩) "=" (.bin "+" (.reg "HEX_REG_ALIAS_PC" .pc ⟨false, 32⟩) (.imm "r" true)),
+   .assign (.reg "HEX_REG_ALIAS_LC1" .alias ⟨false, 32⟩) "=" (.imm "U" false)]
+theorem j2_loop1i_certified : certifiedSem j2_loop1i = true := by decide +kernel
+
+/-- all hypotheses of `certifiedSem_correct` hold together for `j4_cmpeq_tp0` from a state with equal registers; its
+    conclusion follows, and the EMITTED effect writes `0xff` to `P0` -/
+example : ∃ eff σC' σIL', compileProgH Cfg.asCode j4_cmpeq_tp0 = .ok eff ∧ ExecCs noMacros j4_cmpeq_tp0 l2_state σC' ∧
+    ExecIL noMacros eff l2_state σIL' ∧ StRel σC' σIL' ∧ σIL'.written "P0_op" = true ∧ σIL'.new "P0_op" = 0xff := by
+  obtain ⟨eff, hcomp⟩ := isOk_elim (x := compileProgH Cfg.asCode j4_cmpeq_tp0) (by decide +kernel)
+  obtain ⟨σC', hC⟩ := isOk_elim (x := execCs noMacros 5 j4_cmpeq_tp0 l2_state) (by decide +kernel)
+  have hex : ExecCs noMacros j4_cmpeq_tp0 l2_state σC' := ExecCs_iff.2 ⟨5, hC⟩
+  obtain ⟨σIL', hx, hrel⟩ := Sem.certifiedSem_correct T3.msOK_trivial j4_cmpeq_tp0_certified hcomp rfl (fun _ _ => rfl) hex
+  have hnew : finalNew "P0_op" (execCs noMacros 5 j4_cmpeq_tp0 l2_state) = some 0xff := by decide +kernel
+  rw [hC] at hnew
+  simp only [finalNew] at hnew
+  split at hnew
+  · rename_i hw
+    refine ⟨eff, σC', σIL', hcomp, hex, hx, hrel, ?_, ?_⟩
+    · rw [← hrel.written]; exact hw
+    · rw [← hrel.new]; exact Option.some.inj hnew
+  · cases hnew
+
 /-- non-vacuity of the expression- and statement-level theorems (`sortOK_fixed`, `expr_sem`, `cond_sem`, `decl_sem`,
     `assign_sem`, `store_sem`, `jump_sem`, `stmt_sem_both`): a consistent context, a typed state, and carved,
     well-formed expressions and statements that are OUTSIDE the syntactic carve-out -/
